@@ -2,6 +2,7 @@ import GT.Model.Conditional
 import GT.Model.Integrals
 import GT.Model.LogCond
 import GT.Model.ApproxFeature   -- [approx-feature]
+import GT.Model.Hetero  -- [hetero]
 /-!
 # Line-protocol driver: a register machine over the model at `Float`
 
@@ -25,6 +26,7 @@ inductive Val where
   | arr (shape : List Nat) (data : Array F)
   | feat (Dy Dx Dk : Nat) (c : FeatCondB Dy Dx Dk F)   -- [approx-feature] LRBF/LSEM conditional (R = 1)
   | empty
+  | hetero (Dy Dx Da Dk : Nat) (ops : HLinkOps F) (c : HeteroB Dy Dx Da Dk F)  -- [hetero]
 
 /-! ## hex / token helpers -/
 
@@ -158,6 +160,10 @@ def dumpVal : Val → String
       extra ++ " " ++ fld "k_Lambda" (d3 kb.Lambda) ++ " " ++ fld "k_nu" (d2 kb.nu) ++ " " ++
       fld "k_ln_beta" (d1 kb.lnBeta) ++ kextra
   | .empty => "empty"
+  | .hetero Dy Dx Da Dk ops c =>  -- [hetero]
+    s!"hetero {ops.name} {Dy} {Dx} {Da} {Dk} " ++ fld "M" (d3 c.M) ++ " " ++ fld "b" (d2 c.b) ++ " " ++
+      fld "A" (d3 c.A) ++ " " ++ fld "W" (d2 c.W) ++ " " ++ fld "Sigma" (d3 c.Sigma) ++ " " ++
+      fld "Lambda" (d3 c.Lambda) ++ " " ++ fld "ln_det_Sigma" (d1 c.lnDetSigma)
 
 /-! ## the machine -/
 
